@@ -219,5 +219,47 @@ func Trees(thorough bool) []func() (*jsonschema.Schema, string) {
 			}
 		}
 	}
+	// two siblings that both have children, the first one several (a level-by-level copy must
+	// not lose the second), under every pair of container fields
+	wf, wg, wh := []string{"AllOf", "Properties", "ItemsArray", "DependentSchemas"}, []string{"AnyOf", "Properties"}, []string{"Not", "AllOf", "Properties"}
+	if thorough {
+		wf, wg, wh = []string{"AllOf", "AnyOf", "PrefixItems", "ItemsArray", "Properties", "Defs", "DependentSchemas", "PatternProperties"}, []string{"AnyOf", "Properties", "OneOf", "Definitions"}, []string{"Not", "Items", "AllOf", "Properties", "Then"}
+	}
+	for _, f := range wf {
+		for _, g := range wg {
+			for _, h := range wh {
+				f, g, h := f, g, h
+				out = append(out, func() (*jsonschema.Schema, string) {
+					return Build([]SubSpec{{f, 3}}, func(_ string, idx int) *jsonschema.Schema {
+						if idx == 0 {
+							return Build([]SubSpec{{g, 3}}, func(_ string, _ int) *jsonschema.Schema { return Build([]SubSpec{{"Contains", 2}}, nil) })
+						}
+						return Build([]SubSpec{{h, 2}}, func(_ string, _ int) *jsonschema.Schema { return Build([]SubSpec{{"If", 2}, {"Else", 2}}, nil) })
+					}), fmt.Sprintf("wide %s:[%s:pop3/Contains, %s:pop2/If+Else]", f, g, h)
+				})
+			}
+		}
+	}
+	// large trees: 4 children per node (two in a slice, two in a map) down to depth 3 (85 nodes + leaves),
+	// and a chain of 100 single children
+	var full func(d int) *jsonschema.Schema
+	full = func(d int) *jsonschema.Schema {
+		if d == 0 {
+			return nil
+		}
+		return Build([]SubSpec{{"AllOf", 3}, {"Properties", 3}}, func(_ string, _ int) *jsonschema.Schema { return full(d - 1) })
+	}
+	out = append(out, func() (*jsonschema.Schema, string) { return full(3), "large: AllOf:pop3+Properties:pop3 to depth 3" })
+	out = append(out, func() (*jsonschema.Schema, string) {
+		var chain func(d int) *jsonschema.Schema
+		chain = func(d int) *jsonschema.Schema {
+			if d == 0 {
+				return nil
+			}
+			f := []string{"Not", "Items", "If", "Contains", "AdditionalProperties"}[d%5]
+			return Build([]SubSpec{{f, 2}}, func(_ string, _ int) *jsonschema.Schema { return chain(d - 1) })
+		}
+		return chain(70), "large: chain of 70 single children"
+	})
 	return out
 }
